@@ -12,1264 +12,1174 @@ Definition show_fres (r : fres) : string :=
   end.
 Definition check (rs : list rune) : string := digest (show_fres (format_res rs)).
 Definition full (rs : list rune) : string := show_fres (format_res rs).
-Eval vm_compute in ("<<<M1361>>>" ++ check (runes_of_ascii "options { // c1a
-  // c1b
-StringPrefixLenType =
-    // c3
-u8 // c4
-; ArrayPrefixLenType // c6a
-  // c6b
-= u32 // c8a
-  // c8b
-; // c9
-FixedStringPadFromLeft // c10
-=
-    // c11
-true // c12
-; FixedStringPadChar // c14
-= // c15a
-  // c15b
-' ' // c16a
-  // c16b
-; // c17a
-  // c17b
-} // c18a
-  // c18b
-packet // c19a
-  // c19b
-Leg
-    // c20
-{
-    // c21
-} // c22a
-  // c22b
-packet
-    // c23
-Heartbeat
-    // c24
-{ // c25a
-  // c25b
-zchar[ // c26
-6 // c27a
-  // c27b
-] msgKind ,
-    // c30
-@rightPad // c31
-(
-    // c32
-'0' // c33a
-  // c33b
-)
-    // c34
-char[ // c35a
-  // c35b
-3
-    // c36
-] Qty
-    // c38
-, // c39a
-  // c39b
-zchar[ // c40
-9 // c41a
-  // c41b
-] // c42a
-  // c42b
-Side2 // c43a
-  // c43b
-, // c44
-i8 // c45a
-  // c45b
-Acct
-    // c46
-, } // c48
-packet Logout // c50a
-  // c50b
-{ // c51
-int8 // c52
-x
-    // c53
-, // c54
-} packet
-    // c56
-Order { // c58a
-  // c58b
-char[] // c59a
-  // c59b
-Acct
-    // c60
-, // c61
-zchar[ // c62
-8 ] // c64
-count // c65a
-  // c65b
-,
-    // c66
-u32 // c67
-OrderId // c68a
-  // c68b
-, // c69
-uint8 // c70a
-  // c70b
-lastPx // c71
-, u16 clOrdID // c74
-, // c75a
-  // c75b
-zchar[ // c76
-7 ] Note
-    // c79
-, // c80a
-  // c80b
-} root // c82
-packet
-    // c83
-Reject
-    // c84
-{ // c85a
-  // c85b
-@leftPad (
-    // c87
-' '
-    // c88
-)
-    // c89
-char[ // c90a
-  // c90b
-8 // c91
-] // c92
-Side2 ,
-    // c94
-i8
-    // c95
-clOrdID // c96a
-  // c96b
-, // c97
-repeat // c98a
-  // c98b
-f32 // c99a
-  // c99b
-x // c100a
-  // c100b
-, // c101
-u32 lastPx // c103a
-  // c103b
-,
-    // c104
-match // c105a
-  // c105b
-lastPx // c106
-as Body // c108a
-  // c108b
-{
-    // c109
-[
-    // c110
-30 , // c112a
-  // c112b
-147 // c113a
-  // c113b
+Eval vm_compute in ("<<<M1642>>>" ++ check (runes_of_ascii "
+MetaData Logon
+
+    {
+
+char[]
+u8x,
+	matchKey
+pack
+,	u8
+    int
+``
+, char[
+
+007
+
 ]
-    // c114
-: // c115a
-  // c115b
-Heartbeat
-    // c116
-, 134 : Leg // c120
-,
-    // c121
-183
-    // c122
-:
-    // c123
-Logout , // c125
-40 // c126a
-  // c126b
-: Order // c128
-, } // c130
-, // c131
-u16 Ref // c133a
-  // c133b
-@calculatedFrom( // c134
-""CRC32""
-    // c135
-) , } // c138
-")).
-Eval vm_compute in ("<<<M1861>>>" ++ check (runes_of_ascii "packet  asx
-{leftPad 
-@calculatedFrom(
-    """ ++ [233]%N ++ runes_of_ascii "t" ++ [233]%N ++ runes_of_ascii """ )
+    msg_type,
 
-,@leftPad
-	( '0'
-
-)
-// trailing space 
-    u8x	As	`crlf
-line` ,
-
-    char[
-	3
-]
-asx
-
-@calculatedFrom( ""{,}""
-)
-
-, 
-// @lengthOf(
-
-// trailing space 
-	  repeat
-u128 { int	{packetx
-    @calculatedFrom(""packet""
-
-)
-    ,
-	match  T  as  T {	""a	b""
-	:
-o
-	, }
-
-,
-zchar[
-    00
-]
-lengthOf 
-`{ , }`
-, 
-  /// triple
-    // trailing space 
-  	char[] crc  @calculatedFrom( ""abc""	)
-
-,
-    }
-,
-
-    Header	@calculatedFrom( """ ++ [233]%N ++ runes_of_ascii "t" ++ [233]%N ++ runes_of_ascii """) `two words`
-
-    , repeat
-uint8 uint8x , repeat 
-//
-	char[	0123456789
-    ]float	`u8 x,`
-
-, }  ,
-    packetx	x`say ""hi""`
-
-    ,
-	@rightPad
-
-( ) 
-i8i8
-	@calculatedFrom(""x y"" )	,  @leftPad ()
-	BodyLength{ 
-repeat int32
-_x  ``
+    BodyLength o
 	,
 
-    i8 msg_type`doc`  //
-,  }
-,
+    string_
+crc	`a\`	,}
 
-    }
-    // `tick` ""quote"" 'q'
+options {
 
-	// packet A { u8 x, }
-	packet	body{
-	}
-	packet
-    repeatCount {
-    zchar[
-3	]	Packet
-
-, 
-@lengthOf(// @lengthOf(
-	Header
-)
-    i64 
-    // c
-  // c
-Packet
-
-`two words`, zchar[
-65535
-]
-
-    calculatedFrom`tab	here` //	t
-  , match
-
-x  as
-
-leftPad{
-""// no comment""  : 
-rootA  ,""`tick`""
-: o
-,} ,// " ++ [128512]%N ++ runes_of_ascii " emoji
-	  zchar[ 	 //	t
-	3  ]  
-  // packet A { u8 x, }
-
-	// " ++ [27880; 37322]%N ++ runes_of_ascii "
-		u128
-@calculatedFrom( ""{,}""
-	)
-`{ , }` , 
-}
-
-//	t
-    	options
-    { u
-=char[
-
-42
-
-] 	 // " ++ [27880; 37322]%N ++ runes_of_ascii "
-	  metadata 
-=
-
-""a\\""  ;Logon =
-	string	;Z9_	=u16
-    ; }
-
-")).
-Eval vm_compute in ("<<<M387>>>" ++ check (runes_of_ascii "options {
-	StringPrefixLenType = u16;
-	ArrayPrefixLenType = u16;
-}
-
-packet SampleBinary {
-	uint16 MsgType `" ++ [28040; 24687; 31867; 22411]%N ++ runes_of_ascii "`,
-	u16 BodyLenght @lengthOf(Body) `" ++ [28040; 24687; 20307; 38271; 24230]%N ++ runes_of_ascii "`,
-	match MsgType as Body {
-		1 : Logon,
-		2 : Logout,
-		3 : Heartbeat,
-		4 : RiskControlRequest,
-		5 : RiskControlResponse,
-	},
-	@calculatedFrom(""CRC32"")
-	u32 Ckecksum `" ++ [26657; 39564; 21644]%N ++ runes_of_ascii "`,
-}
-
-packet Logon {
-	@leftPad('0')
-	char[10] UserName `" ++ [29992; 25143; 21517]%N ++ runes_of_ascii "`,
-	string Password `" ++ [23494; 30721]%N ++ runes_of_ascii "`,
-	uint64 ClientId `" ++ [23458; 25143; 31471]%N ++ runes_of_ascii "ID`,
-	u16 HeartbeatInterval `" ++ [24515; 36339; 38388; 38548]%N ++ runes_of_ascii "`,
-}
-
-packet Logout {
-	@rightPad('0')
-	char[10] UserName `" ++ [29992; 25143; 21517]%N ++ runes_of_ascii "`,
-	uint64 ClientId `" ++ [23458; 25143; 31471]%N ++ runes_of_ascii "ID`,
-}
-
-packet Heartbeat {
-}
-
-packet RiskControlRequest {
-	string UniqueOrderId `" ++ [21807; 19968; 35746; 21333; 21495]%N ++ runes_of_ascii "`,
-	char[16] ClOrdID `" ++ [23458; 25143; 35746; 21333; 21495]%N ++ runes_of_ascii "`,
-	char[3] MarketID `" ++ [24066; 22330]%N ++ runes_of_ascii "id`,
-	char[12] SecurityID `" ++ [35777; 21048; 20195; 30721]%N ++ runes_of_ascii "`,
-	char Side `" ++ [20080; 21334; 26041; 21521]%N ++ runes_of_ascii "`,
-	char OrderType `" ++ [35746; 21333; 31867; 22411]%N ++ runes_of_ascii "`,
-	u64 Price `" ++ [20215; 26684]%N ++ runes_of_ascii "`,
-	u32 Qty `" ++ [25968; 37327]%N ++ runes_of_ascii "`,
-	repeat string ExtraInfo `" ++ [38468; 21152; 20449; 24687]%N ++ runes_of_ascii "`,
-	repeat SubOrder {
-		char[16] ClOrdID `" ++ [23376; 35746; 21333; 21495]%N ++ runes_of_ascii "`,
-		u64 Price `" ++ [23376; 35746; 21333; 20215; 26684]%N ++ runes_of_ascii "`,
-		u32 Qty `" ++ [23376; 35746; 21333; 25968; 37327]%N ++ runes_of_ascii "`,
-	},
-}
-
-packet RiskControlResponse {
-	string UniqueOrderId `" ++ [21807; 19968; 35746; 21333; 21495]%N ++ runes_of_ascii "`,
-	i32 Status `" ++ [29366; 24577]%N ++ runes_of_ascii "`,
-	string Msg `" ++ [32467; 26524; 20449; 24687]%N ++ runes_of_ascii "`,
-	repeat Detail,
-}
-
-packet Detail {
-	string RuleName `" ++ [35268; 21017; 21517; 31216]%N ++ runes_of_ascii "`,
-	u16 Code `" ++ [21407; 22240; 20195; 30721]%N ++ runes_of_ascii "`,
-}")).
-Eval vm_compute in ("<<<M1341>>>" ++ check (runes_of_ascii "options {
-    FixedStringPadFromLeft = true;
-    FixedStringPadChar = '0';
-}
-packet Leg {
-    InPrice0 {
-        repeat string clOrdID,
-        int16 msgKind,
-        zchar[5] Px,
-    },
-    i16 f1,
-    repeat f64 Side2,
-    string Acct,
-}
-packet Cancel {
-    zchar[4] clOrdID,
-    string seqNo,
-    Leg,
-    @leftPad('0') char[11] OrderId,
-}
-packet Quote {
-    repeat char[4] sym,
-    f64 OrderId,
-    repeat Leg,
-    repeat i64 f1,
-    int16 Note,
-    zchar[3] count,
-}
-root packet Ack {
-    @leftPad(' ') char[10] sym,
-    InPx60 {
-        Cancel,
-        repeat char[1] f1,
-        string Tail,
-        repeat InNote55 {
-            int8 count,
-            f64 f1,
-            repeat Cancel,
-        },
-        char[] tag7,
-        repeat string msgKind,
-    },
-    u8 lastPx,
-    match lastPx as Body {
-        152 : Quote,
-        173 : Cancel,
-        4 : Leg,
-    },
-    u16 Ref @calculatedFrom(""CR\
-C32""),
-}
-")).
-Eval vm_compute in ("<<<M104>>>" ++ check (runes_of_ascii "options{  matchKey = ""x y""
-    ;	MetaDataX
-= '0'
-;
-} packet // c
-msg_type { @rightPad ( ' '  )repeat u128 body	, match body	as /// triple
-pack{ [ ""\" ++ [233]%N ++ runes_of_ascii """ , ""1"" ]: BodyLength
-, [ 255
-, ""a	b"" , ""a\\"" , ""{,}""
-,  007 , 007 ,
-    0123456789
-] : options1	,	} ,@leftPad
-()@lengthOf(charz	)
-@tag(	42
-) o{	i32 msg_type @lengthOf( A )// " ++ [27880; 37322]%N ++ runes_of_ascii "
-`doc` ,zchar[ 1] charz  , // c
-i8 packetx`{ , }`,
-msg_type `crlf
-line`
-    , }	,
-@calculatedFrom( ""\" ++ [233]%N ++ runes_of_ascii """ ) Z9_ @calculatedFrom(
-""" ++ [128512]%N ++ runes_of_ascii """ )`tab	here` ,
-repeat char[] Foo ,
-repeat zchar[ 0123456789]	u128
-, }	packet f32a{
-    f32a @lengthOf( matchKey )//x
-, @rightPad (
-    ' ' // " ++ [27880; 37322]%N ++ runes_of_ascii "
-)@lengthOf( chars ) _x Foo  `` ,  match
-    body // c
-as
-    body
-    {	[4294967296
-    , ""packet"", 3 , """ ++ [128512]%N ++ runes_of_ascii """
-,
-0123456789  ]
-: T [ ""a\\"" ]// `tick` ""quote"" 'q'
-: T
-, ""\n""
-:
-u8x , }
-//	t
 //x
-,} //x
-root packet lengthOf
-{ }
+trueish
+    = 
+int16  Packet
+= char
+    MetaDataX  =	char[ 
+    //
+
+// trailing space 
+
+255  ] // a // b
+
+; }
+    root 
+
+    //
+	packet
+a1 	 // packet A { u8 x, }
+
+{
+} root
+
+    packet // c
+	MetaDataX
+	{
+	@lengthOf(  _x
+	)  repeat
+    Logon{ // " ++ [128512]%N ++ runes_of_ascii " emoji
+	o
+a1
+    , uint64
+	u128,
+	} , zchar[
+	007
+    ]chars`line1
+line2`, repeat	Header
+u128
+`doc`
+,	// " ++ [128512]%N ++ runes_of_ascii " emoji
+@calculatedFrom(  ""1""
+)	int
+	trueish
+,
+	char[ 
+0123456789
+
+]	uint8x
+	,i8
+
+    int
+	@lengthOf(msg_type 
+)
+	`line1
+line2`
+
+    , 
+        //x
+  @rightPad
+	( )
+
+repeat f64
+    Z9_ 
+,	metadata {	falsey
+
+@calculatedFrom(	""abc""
+    )
+	,
+}
+,
+	options1
+@calculatedFrom(	""\n"" 
+), @calculatedFrom( 
+""\n""
+
+    )match metadata as	Header	{ 
+[ """",""1""]
+	:Foo	//
+
+  ,
+	[ ""\n"", 10 
+,
+// " ++ [27880; 37322]%N ++ runes_of_ascii "
+// c
+
+""{,}""
+	]
+
+    :	Logon
+
+    ,
+[ """"	] :
+len
+
+    ,
+""\n"":// trailing space 
+	msg_type  ,
+
+[ 	 // c
+  	00
+	]
+
+:trueish
+	,
+
+10
+:u8x	,
+	}
+	, }  // " ++ [27880; 37322]%N ++ runes_of_ascii "
+root	packet
+
+BodyLength{char[ 42
+    ]
+
+body	@calculatedFrom( ""{,}""  )	`tab	here`	// trailing space 
+	, i32
+stringy @calculatedFrom(
+
+    """ ++ [28040; 24687]%N ++ runes_of_ascii """	)
+	, @tag(  0123456789
+
+    )	@rightPad() @tag(00)
+	i16
+	a1
+@lengthOf( pack// a // b
+  )
+	,
+    @tag(
+    10	)
+
+    @leftPad 
+(
+
+    '\x00'	)  // `tick` ""quote"" 'q'
+	  @calculatedFrom(""a\""b"" )
+	repeat 
+char[]  // c
+
+stringy	`
+`  ,  chars
+    `say ""hi""`
+    ,
+
+    @lengthOf( a1	)@leftPad
+(
+'0' ) 
+match
+    Z9_	as Header {00 
+
+//	t
+:
+
+As ,
+}// " ++ [27880; 37322]%N ++ runes_of_ascii "
+		,o
+
+    @calculatedFrom(	""" ++ [128512]%N ++ runes_of_ascii """
+	),
+	@leftPad	//	t
+( )As// trailing space 
+  	@calculatedFrom(""// no comment"" )
+	,	match 
+x_y_z
+as BodyLength  { 
+""x y""// `tick` ""quote"" 'q'
+
+: BodyLength
+,
+
+    """ ++ [28040; 24687]%N ++ runes_of_ascii """
+:packetx
+	,
+	0 :
+	Header 
+,	""x y""	: matchKey
+	    //	t
+  , } ,
+	}// trailing space ")).
+Eval vm_compute in ("<<<M53>>>" ++ check (runes_of_ascii "root
+packet u {
+    char[007 ]x_y_z
+`two words` , int16 u8x
+    @calculatedFrom( ""packet""
+    )
+    // @lengthOf(
+    ,
+    float64
+    falsey
+@calculatedFrom( ""\" ++ [233]%N ++ runes_of_ascii """ ) `u8 x,`
+    ,
+    trueish @calculatedFrom(
+    """ ++ [233]%N ++ runes_of_ascii "t" ++ [233]%N ++ runes_of_ascii """ )
+`tab	here` , @tag( 1	) repeat char[
+4294967296 ]
+    // " ++ [128512]%N ++ runes_of_ascii " emoji
+    u , match
+    // " ++ [27880; 37322]%N ++ runes_of_ascii "
+    i8i8
+    //
+    as // " ++ [128512]%N ++ runes_of_ascii " emoji
+o
+    { [""a\\""
+    ]:
+    matchKey,[ 0123456789
+    //x
+    , ""x y""  , 0 ,
+/// triple
+/// triple
+00 , ""a	b"" ,""{,}"" , // a // b
+""{,}"" ,
+007 ] :
+u8x,
+255 : u128 , [
+""" ++ [28040; 24687]%N ++ runes_of_ascii """
+    , 0123456789	,65535 ,
+    // a // b
+    ""\n"" ] : _x, 7 :
+falsey} , @leftPad ( )// " ++ [128512]%N ++ runes_of_ascii " emoji
+charz @lengthOf(A ) , // `tick` ""quote"" 'q'
+} root packet stringy
+{
+    repeat
+    MetaDataX {float32
+T , string
+    x_y_z `a\`
+, repeat	_x  zchar`u8 x,` , }
+    , } packet Foo {
+    @lengthOf(  roots
+    ) calculatedFrom a1, zchar[ 0123456789]	_x,
+// @lengthOf(
+// trailing space 
+match //
+roots as MetaDataX // c
+{ /// triple
+42 :	_x ,
+3// a // b
+:msg_type  7 : a1, """"	:i8i8 , //x
+[ """ ++ [233]%N ++ runes_of_ascii "t" ++ [233]%N ++ runes_of_ascii """ ]: i8i8 , 00 : leftPad ,
+    } , @calculatedFrom( // @lengthOf(
+"""" ) char[  00 // c
+]
+Foo
+@lengthOf( uint8x) ,  f32 chars , }packet
+    metadata
+    //	t
+    { } MetaData i64_ // packet A { u8 x, }
+{ lengthOf options1 ,
+// @lengthOf(
+//x
+a1 A,
+    x Header ,
+    }
 ")).
-Eval vm_compute in ("<<<M1117>>>" ++ check (runes_of_ascii "// top
-MetaData
+Eval vm_compute in ("<<<M1758>>>" ++ check (runes_of_ascii "
+packet calculatedFrom {  // a // b
+    string  charz
+`two words` 
+    //	t
+      //x
+    ,
+	}
+packet stringy
+{
+    @lengthOf(msg_type 
+)
+
+crc
+        // " ++ [128512]%N ++ runes_of_ascii " emoji
+
+  , @leftPad
+    ( '0' 
+)
+crc	@lengthOf(
+u128 //	t
+  )
+	,	@leftPad	(
+    ' ' ) match x_y_z as	rootA { [// @lengthOf(
+
+3
+	,255 ]
+:
+	int ""1""
+
+    : o ,  // a // b
+10
+:
+tag
+    , // c
+
+10 	 // " ++ [128512]%N ++ runes_of_ascii " emoji
+:
+	Header ,
+3: a1
+
+    ,
+
+""" ++ [128512]%N ++ runes_of_ascii """: packetx  ,
+} 
+	// packet A { u8 x, }
+// packet A { u8 x, }
+    	,	match 
+        // " ++ [27880; 37322]%N ++ runes_of_ascii "
+	// a // b
+	o
+    as  x	//x
+
+	{
+
+    ""a	b""	: u8x 
+,  }  , @rightPad	( 
+)repeat
+u 
+packetx,	T  // " ++ [27880; 37322]%N ++ runes_of_ascii "
+		,
+repeat
+
+Logon ,
+	T
+
+{repeat x_y_z , // a // b
+  i8
+
+    crc
+`two words` ,
+
+char[]  calculatedFrom	@calculatedFrom( ""x y""
+)
+    ,
+    },
+roots 
+calculatedFrom
+
+    , @lengthOf(asx
+
+    )
+repeat
+
+    x_y_z	{	T 
+matchKey  , }, }
+
+    options
+{float	=
+
+char[
+
+1 ] 
+; msg_type  // c
+  =
+    i8	x
+=
+	    //
+    // `tick` ""quote"" 'q'
+  zchar[
+    7
+];
+    f32a
+=
+""\n""
+} ")).
+Eval vm_compute in ("<<<M28>>>" ++ check (runes_of_ascii "options
+    { string_
+= false
+    ; falsey  = char[// " ++ [128512]%N ++ runes_of_ascii " emoji
+4294967296 ] ; } packet
+    zchar{match float as len { [ """ ++ [233]%N ++ runes_of_ascii "t" ++ [233]%N ++ runes_of_ascii """ ]:
+matchKey
+    , 3 : // " ++ [27880; 37322]%N ++ runes_of_ascii "
+u [ 4294967296
+, ""1"" ] :
+// `tick` ""quote"" 'q'
+// c
+zchar , } // c
+,} MetaData
+    // @lengthOf(
+    T {
+// c
+// a // b
+}	packet packetx  { uint16 uint8x @calculatedFrom( ""it's"" ) ,
+stringy { i16 crc
+`{ , }`	, }
+, zchar[ 00
+] x
+,
+    zchar{ uint64 tag , zchar
+f32a	`say ""hi""` , uint32 A `{ , }` , match _x as
+falsey
+{ [ 007// " ++ [128512]%N ++ runes_of_ascii " emoji
+,
+    """ ++ [128512]%N ++ runes_of_ascii """] :
+    matchKey// " ++ [128512]%N ++ runes_of_ascii " emoji
+[ 0123456789,3 ] : T
+// " ++ [128512]%N ++ runes_of_ascii " emoji
+// `tick` ""quote"" 'q'
+1: Foo ,
+}
+    ,// trailing space 
+} ,A ,
+    zchar[
+    // packet A { u8 x, }
+    4294967296 ] string_ @lengthOf( float ) ,match rootA as As
+    { [ ""it's"",
+255 , 0123456789 ,
+// packet A { u8 x, }
+//	t
+""" ++ [233]%N ++ runes_of_ascii "t" ++ [233]%N ++ runes_of_ascii """	, ""{,}"" ,	""abc""
+    , """ ++ [233]%N ++ runes_of_ascii "t" ++ [233]%N ++ runes_of_ascii """]:int, 4294967296 : tag , } , }
+")).
+Eval vm_compute in ("<<<M1412>>>" ++ check (runes_of_ascii "packet leftPad {
+    //
+    i8 stringy @calculatedFrom(""" ++ [128512]%N ++ runes_of_ascii """),
+    int @calculatedFrom(""a	b"") `it's`,
+    @leftPad()
+    @tag(0123456789)
+    int32 u8x,
+    @lengthOf(A)
+    float64 u128 @calculatedFrom(""a\\""),//x
+}
+
+options {
+    //x
+    Pad = 0
+    u = ' '
+}
+
+MetaData a1 {
+    char[] metadata `// not a comment`,
+}
+
+packet Foo {
+    @tag(42)
+    repeat BodyLength,
+    int8 metadata `{ , }`,
+    @leftPad()
+    // " ++ [27880; 37322]%N ++ runes_of_ascii "
+    @calculatedFrom(""`tick`"")
+    @calculatedFrom(""a	b"")
+    u32 stringy,
+    @lengthOf(roots)
+    zchar[0] msg_type @lengthOf(i64_) `tab	here`,
+    i8 Header `{ , }`,
+    char[7] trueish @lengthOf(packetx),
+    u64 charz `
+    `,
+    zchar[65535] repeatCount `it's`,
+    match calculatedFrom as calculatedFrom {
+        ""a	b"" : roots,
+        42 : MetaDataX,
+    },
+}")).
+Eval vm_compute in ("<<<M1429>>>" ++ check (runes_of_ascii "  // top
+	MetaData// c0
+  Packet // c1
+  	{  // c2
+	}  // c3
+	packet	// c4
+    	charz  // c5
+	{  // c6
+    Foo  // c7
+	asx  // c8
+`it's`	// c9
+	  ,  // c10
+  @lengthOf( // c11
+T  // c12
+  )	// c13
+	@calculatedFrom( // c14
+  """" // c15
+)  // c16
+  	@calculatedFrom(	// c17
+  	""x y"" // c18
+	  ) // c19
+  zchar[// c20
+
+	007 // c21
+	]  // c22
+    repeatCount	// c23
+  @lengthOf( 	 // c24
+		int	// c25
+  )	// c26
+    	`a\`	// c27
+	, 	 // c28
+  i8	// c29
+	  string_ 	 // c30
+      , 	 // c31
+  repeat	// c32
+    options1	// c33
+      Pad // c34
+,// c35
+
+}  // c36
+  root	// c37
+
+packet	// c38
+  Packet // c39
+    {  // c40
+int8	// c41
+
+float	// c42
+      `doc`  // c43
+	, // c44
+
+  } // c45
+")).
+Eval vm_compute in ("<<<M154>>>" ++ check (runes_of_ascii "packet BodyLength
+    // a // b
+    {@rightPad (
+'\x00' )
+u8x/// triple
+,  @tag(  007
+) @calculatedFrom( ""packet""	) repeat  uint8x x_y_z, }
+    MetaData A {
+    // packet A { u8 x, }
+    Z9_ // a // b
+f32a ,
+    zchar[ 255// a // b
+]
+    msg_type`say ""hi""` ,char[ 1	]Logon  `tab	here` ,//
+}
+packet uint8x {  @calculatedFrom(
+""" ++ [28040; 24687]%N ++ runes_of_ascii """ )@tag(// `tick` ""quote"" 'q'
+65535)	u32 int
+@lengthOf( u8x )
+`say ""hi""`
+,	@leftPad ( ' ') stringy //
+{
+    string_ A ,
+    char[ 4294967296
+] i8i8 `" ++ [233]%N ++ runes_of_ascii "`	, char[]  Logon
+,
+string
+x_y_z@lengthOf(	Packet ),
+} , zchar[	4294967296 ]
+int	`{ , }` , }
+// trailing space 
+// " ++ [27880; 37322]%N ++ runes_of_ascii "
+packet u8x
+    { }
+// a // b
+")).
+Eval vm_compute in ("<<<M1536>>>" ++ check (runes_of_ascii "options {
+    Header = u32;
+}
+
+options {
+    i8i8 = f64;
+    body = zchar[00];
+}
+
+//
+MetaData BodyLength {
+    // trailing space 
+}// " ++ [27880; 37322]%N ++ runes_of_ascii "
+
+options {
+    Logon = u64
+    As = true
+    i64_ = '\x00';
+}
+
+root packet asx {
+    @tag(4294967296)
+    roots @lengthOf(A),
+    repeat uint8 u128,
+    int32 i64_,
+    u8 u ``,
+    @lengthOf(len)
+    uint64 matchKey,
+    match rootA as stringy {
+        1 : string_,
+        7 : charz,
+        255 : u128,
+        [0, 0123456789, 1, 007] : len,
+        10 : trueish,
+    },
+    @rightPad()
+    char[7] int @lengthOf(x) `two words`,
+}")).
+Eval vm_compute in ("<<<M1394>>>" ++ check (runes_of_ascii "//x
+root packet float {
+    options1 A,
+    @tag(42)
+    u8x {
+        tag @calculatedFrom(""\" ++ [233]%N ++ runes_of_ascii """) `tab	here`,
+    },
+    int16 asx,
+    @lengthOf(o)
+    @rightPad()
+    repeat int Logon,
+    @calculatedFrom(""// no comment"")
+    @leftPad('\x00')
+    @rightPad('0')
+    zchar[65535] o `
+    `,
+    repeat As {
+        //x
+        repeat uint16 o,
+        repeat char[1] o,
+        u128 metadata,
+        repeat char[7] Header,
+    },
+    @tag(0123456789)
+    a1 tag,
+    float32 asx,
+    repeat len ``,
+}")).
+Eval vm_compute in ("<<<M138>>>" ++ check (runes_of_ascii "packet Header{ char[	10
+] A`it's` , @calculatedFrom(	""" ++ [28040; 24687]%N ++ runes_of_ascii """)calculatedFrom // a // b
+@lengthOf( zchar ) `tab	here` ,  u32	BodyLength,
+@lengthOf(
+    stringy  ) //
+@rightPad (
+    ' ') @tag(
+0123456789 )
+body{ match i8i8 as
+Foo
+{ [ 7 ,	""CRC32"" ] : options1 ,[""a\""b"" , """ ++ [128512]%N ++ runes_of_ascii """ ,
+    ""it's""
+    , ""a	b"" ,
+""// no comment"" , ""it's"" , 7,""abc""  ] :
+As  ,
+1 :
+_x
+// " ++ [128512]%N ++ runes_of_ascii " emoji
+//
+} , repeat  uint8x{crc
+@calculatedFrom( ""a\\""
+), } ,
+    repeat  i8 tag ,// " ++ [128512]%N ++ runes_of_ascii " emoji
+}
+, }
+
+")).
+Eval vm_compute in ("<<<M0>>>" ++ check (runes_of_ascii "packet leftPad// trailing space 
+{@tag( 10 )
+    @tag( 007 ) @lengthOf(	a1 )
+// a // b
+//
+repeat metadata
+    ,
+} // " ++ [128512]%N ++ runes_of_ascii " emoji
+options
+    // @lengthOf(
+    { lengthOf
+= """ ++ [128512]%N ++ runes_of_ascii """	;
+}  packet T
+    // " ++ [27880; 37322]%N ++ runes_of_ascii "
+    { A
+{
+//
+// `tick` ""quote"" 'q'
+tag@calculatedFrom(""abc"")
+, }
+    , @lengthOf( matchKey
+    ) string	Header @lengthOf( metadata
+) ,leftPad
+    // trailing space 
+    @calculatedFrom(
+""a\""b"" )`crlf
+line`,}
+")).
+Eval vm_compute in ("<<<M1804>>>" ++ check (runes_of_ascii "options
+    {
+	falsey 
+= int64 
+; 
+u8x
+	=
+    uint32 uint8x=// " ++ [128512]%N ++ runes_of_ascii " emoji
+zchar[ 1 
+]
+	// @lengthOf(
+	/// triple
+  ; leftPad 
+= ""a	b""
+; calculatedFrom
+	=
+	false
+;
+
+    } MetaData
+    Packet
+
+    { zchar[
+7  ]
+
+    As
+
+, }
+root  packet pack
+	{
+@leftPad	( ) @tag(  // trailing space 
+		7	)
+zchar[3] u @lengthOf(
+
+    // @lengthOf(
+  // trailing space 
+    x
+)	,	} ")).
+Eval vm_compute in ("<<<M1733>>>" ++ check (runes_of_ascii "
+
+  options 
+{
+a1 =	'\x00'
+As	= ""{,}"" 
+u8x
+
+    =	//x
+
+""a	b""
+
+;	asx
+	=
+u64
+;
+o
+// @lengthOf(
+	// c
+    	=
+0123456789 } 
+packet 
+Header
+{
+//
+    @lengthOf(
+    x 	 // trailing space 
+    ) 
+
+// " ++ [27880; 37322]%N ++ runes_of_ascii "
+	repeat  falsey
+    {	repeatCount
+trueish
+    `u8 x,` , }
+
+    ,
+	// `tick` ""quote"" 'q'
+  	// " ++ [128512]%N ++ runes_of_ascii " emoji
+  zchar[65535  ]
+
+    x 
+, 
+}
+")).
+Eval vm_compute in ("<<<M12>>>" ++ check (runes_of_ascii "options {falsey =int64; u8x = uint32	uint8x =// " ++ [128512]%N ++ runes_of_ascii " emoji
+zchar[ 1
+]
+// @lengthOf(
+/// triple
+; leftPad =
+    ""a	b"";
+    calculatedFrom
+=
+    false ;	}
+MetaData Packet
+{  zchar[
+7]  As ,} root packet	pack {
+@leftPad ( )	@tag(// trailing space 
+7 ) zchar[ 3 ] u	@lengthOf(
+// @lengthOf(
+// trailing space 
+x ),
+}
+")).
+Eval vm_compute in ("<<<M1460>>>" ++ check (runes_of_ascii "options {
+}
+
+MetaData string_ {
+    u32 matchKey `u8 x,`,
+    string MetaDataX,
+    uint8 Logon,
+    uint64 options1,
+    char[00] len `tab	here`,
+    u8 options1,
+}// a // b
+
+packet a1 {
+    chars,
+    char[] i64_ @lengthOf(stringy),
+    char T,
+    repeat i8 charz `a\`,
+}")).
+Eval vm_compute in ("<<<M139>>>" ++ check (runes_of_ascii "packet//x
+x_y_z {rootA @lengthOf( o ) `two words` ,} MetaData f32a{
+trueish
+    // packet A { u8 x, }
+    x , }
+    MetaData body
+    { u128 pack , f64
+    // @lengthOf(
+    float	, char[ 65535
+//	t
+/// triple
+] tag `" ++ [233]%N ++ runes_of_ascii "`// c
+,  } // " ++ [128512]%N ++ runes_of_ascii " emoji")).
+Eval vm_compute in ("<<<M350>>>" ++ check (runes_of_ascii "MetaData Pad
+{ i64 Packet `{ , }`
+    , // `tick` ""quote"" 'q'
+repeatCount  trueish // packet A { u8 x, }
+`say ""hi""`	, f32 pack`// not a comment` ,// `tick` ""quote"" 'q'
+u32
+calculatedFrom ,char //	t
+zchar
+,}
+")).
+Eval vm_compute in ("<<<M121>>>" ++ check (runes_of_ascii "packet u128 { @calculatedFrom(  ""a	b"" ) // packet A { u8 x, }
+@leftPad( ' '
+) //	t
+@lengthOf(
+Header // packet A { u8 x, }
+) char[10
+    ] crc@lengthOf(
+len ) , } MetaData i8i8 { }
+")).
+Eval vm_compute in ("<<<M1195>>>" ++ check (runes_of_ascii "// top
+packet
     // c0
-Packet
+body
     // c1
 {
     // c2
-}
+i32
     // c3
-packet
+f32a
     // c4
-charz
+`{ , }`
     // c5
-{
+,
     // c6
-Foo
+}
     // c7
-asx
+options
     // c8
-`it's`
+{
     // c9
-,
+}
     // c10
-@lengthOf(
-    // c11
-T
-    // c12
-)
-    // c13
-@calculatedFrom(
-    // c14
-""""
-    // c15
-)
-    // c16
-@calculatedFrom(
-    // c17
-""x y""
-    // c18
-)
-    // c19
-zchar[
-    // c20
-007
-    // c21
-]
-    // c22
-repeatCount
-    // c23
-@lengthOf(
-    // c24
-int
-    // c25
-)
-    // c26
-`a\`
-    // c27
-,
-    // c28
-i8
-    // c29
-string_
-    // c30
-,
-    // c31
-repeat
-    // c32
-options1
-    // c33
-Pad
-    // c34
-,
-    // c35
-}
-    // c36
-root
-    // c37
-packet
-    // c38
-Packet
-    // c39
-{
-    // c40
-int8
-    // c41
-float
-    // c42
-`doc`
-    // c43
-,
-    // c44
-}
-    // c45
 ")).
-Eval vm_compute in ("<<<M243>>>" ++ check (runes_of_ascii "// a // b
-packet stringy { @tag( 3 ) // trailing space 
-i64
-    len
-,@calculatedFrom( ""1""  ) char[
-0 ]
-x @lengthOf(Foo )
-,@calculatedFrom( """" )
-body
-// c
-// " ++ [128512]%N ++ runes_of_ascii " emoji
-@lengthOf(
-calculatedFrom )`line1
-line2`
-    , @calculatedFrom( ""it's"" // " ++ [128512]%N ++ runes_of_ascii " emoji
-)// packet A { u8 x, }
-match falsey
-    // packet A { u8 x, }
-    as u8x {[
-""" ++ [128512]%N ++ runes_of_ascii """
-    , // a // b
-42 , 1 ,10 ]
-: Header , } ,
-// trailing space 
-// `tick` ""quote"" 'q'
-} MetaData// " ++ [128512]%N ++ runes_of_ascii " emoji
-stringy{ f32a
-    u128 `{ , }` , char[ // a // b
-10 ]u128	, chars _x , zchar[ 65535 // trailing space 
-]/// triple
-falsey
-    `{ , }`
-    , _x i64_
-, int32
-Packet
-`crlf
-line` , } MetaData lengthOf
-{
-    }
-// trailing space 
-")).
-Eval vm_compute in ("<<<M1917>>>" ++ check (runes_of_ascii "packet Header {
-    char[10] A `it's`,
-    @calculatedFrom(""" ++ [28040; 24687]%N ++ runes_of_ascii """)
-    calculatedFrom @lengthOf(zchar) `tab	here`,
-    u32 BodyLength,
-    @lengthOf(stringy)
-    //
-    @rightPad(' ')
-    @tag(0123456789)
-    body {
-        match i8i8 as Foo {
-            [7, ""CRC32""] : options1,
-            [
-                ""a\""b"", """ ++ [128512]%N ++ runes_of_ascii """, ""it's"", ""a	b"", ""// no comment"",
-                ""it's"", 7, ""abc""
-            ] : As,
-            1 : _x,
-            // " ++ [128512]%N ++ runes_of_ascii " emoji
-            //
-        },
-        repeat uint8x {
-            crc @calculatedFrom(""a\\""),
-        },
-        repeat i8 tag,// " ++ [128512]%N ++ runes_of_ascii " emoji
-    },
-}")).
-Eval vm_compute in ("<<<M1571>>>" ++ check (runes_of_ascii "
-root 
-packet
-Logon
-    {
-
-@calculatedFrom(
-
-"""" ) @lengthOf(	int
-
-    ) @tag(  3 )
-match
-_x 
-as	// a // b
-    i64_
-
-    {
-10 :
-    asx
-
-    // `tick` ""quote"" 'q'
-	  /// triple
-  """ ++ [128512]%N ++ runes_of_ascii """
-:
-
-crc	,
-	[0
-	,
-007
-
-]  :float
-	,  // trailing space 
-		} 
+Eval vm_compute in ("<<<M461>>>" ++ check (runes_of_ascii "packet uint8x
+{ match pack
+    as msg_type	{
+    0123456789 :	float
+}
 ,
-
-repeat 	 //	t
-  	uint16
-
-    leftPad
-
-,
-    } 
-
-    // " ++ [27880; 37322]%N ++ runes_of_ascii "
-  packet
-
-charz{  }  MetaData
-	int
-
-{  
-  //
-// trailing space 
-      zchar[
-    4294967296
-
-]matchKey
-	, asx rootA
-    `doc`
-
-,Foo
-	string_
-	`// not a comment` , 
-char[] u8x
-,  // `tick` ""quote"" 'q'
-    roots
-    float, }")).
-Eval vm_compute in ("<<<M1883>>>" ++ check (runes_of_ascii "
-
-  // top
-
-  MetaData
-	// c0
-
-uint8x // c1
-	  {char[] 
-
-// c3
-
-  f32a// c4a
-	// c4b
-  `// not a comment`  
-      // c5
-,// c6a
-  // c6b
-  float32 // c7
-
-  roots 
-	// c8
-	, 	 // c9
-  	char[ // c10a
-
-// c10b
-  	7// c11
-  ]// c12
-
-u8x  // c13
-	, 	 // c14a
-  // c14b
-  zchar[
-	    // c15
-    10 
-	// c16
-  ]  // c17
-
-f32a 	 // c18
-
-	,	// c19a
-		// c19b
-      u64
-	// c20
-	pack 	 // c21a
-  // c21b
-	,
-
-u16  
-  // c23
-
-	pack  // c24a
-	// c24b
-  ,
-    // c25
-
-	}
-    // c26")).
-Eval vm_compute in ("<<<M1375>>>" ++ check (runes_of_ascii "options {
-    LittleEndian = true;
-    StringPrefixLenType = u64;
-    ArrayPrefixLenType = u16;
-    FixedStringPadFromLeft = false;
-    FixedStringPadChar = ' ';
-}
-packet Logon {
-    zchar[5] Side2,
-}
-root packet Logout {
-    repeat i64 Tail,
-    Logon,
-    repeat i16 OrderId,
-    char[] venue,
-    uint64 x,
-    repeat i16 count,
-    u8 Flags,
-    match Flags as Body {
-        25 : Logon,
-    },
-    u16 Qty @calculatedFrom(""CR\
-C32""),
-}
+} packet packet //	t
+a1
+    { } options {packetx
+    = '\x00'	; u128= ""a	b""  ; }
 ")).
-Eval vm_compute in ("<<<M1271>>>" ++ check (runes_of_ascii "options { // c1a
-  // c1b
-LittleEndian
-    // c2
-= // c3
-true // c4
-; } // c6a
-  // c6b
-packet B { u8 // c10a
-  // c10b
-a
-    // c11
-, // c12a
-  // c12b
-string // c13
-s // c14
-, } // c16
-root // c17a
-  // c17b
-packet
-    // c18
-P // c19
-{ u16 // c21
-L @lengthOf( B ) // c25a
-  // c25b
-, // c26a
-  // c26b
-B // c27a
-  // c27b
-,
-    // c28
-u8
-    // c29
-t // c30
-, // c31
-} // c32a
-  // c32b
+Eval vm_compute in ("<<<M150>>>" ++ check (runes_of_ascii "packet
+    //	t
+    Logon {
+metadata
+@calculatedFrom( ""a\\"" ) , @tag( 42 ) // " ++ [128512]%N ++ runes_of_ascii " emoji
+@tag(	65535 )
+repeat u16 o `line1
+line2` ,
+} packet float { }
+
 ")).
-Eval vm_compute in ("<<<M1877>>>" ++ check (runes_of_ascii "// top
-packet A {
-    // c2
-    u8 a,
-}// c6a
-
-// c6b
-packet B {
-    u16 b,
-    // c12
+Eval vm_compute in ("<<<M547>>>" ++ check (runes_of_ascii "%packet uint8x
+{ match pack
+    as msg_type	{
+    0123456789 :	float
 }
-
-// c13
-root packet P {
-    // c17a
-    // c17b
-    u8 K1,// c20
-    u8 K2,// c23a
-    // c23b
-    match K1 as M1 {
-        // c28a
-        // c28b
-        1 : A,
-        // c32a
-        // c32b
-    },
-    match K2 as M2 {
-        1 : B,
-    },
-    // c45
-}// c46")).
-Eval vm_compute in ("<<<M1402>>>" ++ check (runes_of_ascii "options {
-    LittleEndian = true;
+,
+} packet //	t
+a1
+    { } options {packetx
+    = '\x00'	; u128= ""a	b""  ; }
+")).
+Eval vm_compute in ("<<<M502>>>" ++ check (runes_of_ascii "packet uint8x
+{ match pack
+    as msg_type	{
+    0123456789 :	float
 }
-
-packet Logon {
-    u8 x,
+,
+} packet //	t
+a1
+    { } options {packetx
+    = ;	'\x00' u128= ""a	b""  ; }
+")).
+Eval vm_compute in ("<<<M433>>>" ++ check (runes_of_ascii "packet uint8x
+{ match pack
+    as msg_type	{
+    ""`tick`"" :	float
 }
-
-packet Logout {
-    u16 reason,
-}
-
-root packet Frame {
-    u64 Kind,
-    u64 Kind2,
-    match Kind as Body {
-        1 : Logon,
-        [2, 3, 4] : Logout,
-        100 : Logon,
-    },
-    match Kind2 as Trailer {
-        0 : Logout,
-    },
-}")).
-Eval vm_compute in ("<<<M1384>>>" ++ check (runes_of_ascii "
-packet
-
-    Sub { u8	a ,	@calculatedFrom(
-""CRC16"" )
-
-    i32
-	SubSum
-
-    ,} root 
-packet Frame
+,
+} packet //	t
+a1
+    { } options {packetx
+    = '\x00'	; u128= ""a	b""  ; }
+")).
+Eval vm_compute in ("<<<M684>>>" ++ check (runes_of_ascii "// @lengthOf(
+packet i8i8 { u128 o , }
+options { MetaDataX = true;
+    BodyLength =""packet"" x_y_z= 007
+crc //x
+= ""abc"" ;
+    msg_type =
+i16 } }")).
+Eval vm_compute in ("<<<M694>>>" ++ check (runes_of_ascii "// @lengthOf(
+packet i8i8 { u128 o , }
+options { MetaDataX = true;
+    = BodyLength""packet"" x_y_z= 007
+crc //x
+= ""abc"" ;
+    msg_type =
+i16 }")).
+Eval vm_compute in ("<<<M1627>>>" ++ check (runes_of_ascii "
+MetaData
+leftPad
+{	chars
+MetaDataX	,	} packet repeatCount
 	{
-    u16	MsgType 
+
+    char[ 
+255 ] uint8x
+	`" ++ [233]%N ++ runes_of_ascii "`
 ,
-
-    u16
-BodyLen
-@lengthOf(
-    Body
-
-) 
-,
-Sub  Body 
-,  string
-
-    note  , @calculatedFrom(
-
-""CRC16""
-
-) 
-i32	Checksum
-
-    ,
-u8 tail,
-	}
-")).
-Eval vm_compute in ("<<<M267>>>" ++ check (runes_of_ascii "packet trueish{
-@leftPad (// @lengthOf(
-'0'  ) @tag(  3/// triple
-) @tag(
-7 ) repeat
-//x
-// @lengthOf(
-matchKey
-{ u32 u,
-}  , @lengthOf( chars
-) @calculatedFrom(
-""a	b"") @tag( 0123456789
-    )zchar[255 ]Pad ,  } root
-    packet u { }
-")).
-Eval vm_compute in ("<<<M273>>>" ++ check (runes_of_ascii "root packet string_ { @leftPad (
-    ' ' )  chars { repeat
-zchar[ 0
-]  tag ,string falsey,// " ++ [128512]%N ++ runes_of_ascii " emoji
-repeat  char[ 007] body  `two words`
-    , } , @calculatedFrom(
-""// no comment"" ) Foo T
-    , // " ++ [128512]%N ++ runes_of_ascii " emoji
-}
-")).
-Eval vm_compute in ("<<<M1603>>>" ++ check (runes_of_ascii "packet A {
-    Inner {
-        match k as n {
-            [
-                1, 22, 007, 4, 5,
-                66, 7, 8, 9, 10,
-                11
-            ] : B,
-        },
-    },
-}")).
-Eval vm_compute in ("<<<M336>>>" ++ check (runes_of_ascii "
-packet msg_type
-{
-    zchar[ 65535
-    /// triple
-    ]stringy // `tick` ""quote"" 'q'
-@calculatedFrom( """ ++ [233]%N ++ runes_of_ascii "t" ++ [233]%N ++ runes_of_ascii """ )
-,@tag( 0
-) repeat i64_,
-}
-// packet A { u8 x, }
-")).
-Eval vm_compute in ("<<<M537>>>" ++ check (runes_of_ascii "packet uint8x
-{ match pack
-    as msg_type	{
-    0123456789 :	float
-}
-,
-} packet //	t
-a1
-    { } o'\x01'ptions {packetx
-    = '\x00'	; u128= ""a	b""  ; }
-")).
-Eval vm_compute in ("<<<M436>>>" ++ check (runes_of_ascii "packet uint8x
-{ match pack
-    as msg_type	{
-    0123456789 : :	float
-}
-,
-} packet //	t
-a1
-    { } options {packetx
-    = '\x00'	; u128= ""a	b""  ; }
-")).
-Eval vm_compute in ("<<<M1553>>>" ++ check (runes_of_ascii "packet Logon {
-    metadata @calculatedFrom(""a\\""),
-    @tag(42)
-    // " ++ [128512]%N ++ runes_of_ascii " emoji
-    @tag(65535)
-    repeat u16 o `line1
-    line2`,
-}
-
-packet float {
-}")).
-Eval vm_compute in ("<<<M522>>>" ++ check (runes_of_ascii "packet uint8x
-{ match pack
-    as msg_type	{
-    0123456789 :	float
-}
-,
-} packet //	t
-a1
-    { } options {packetx
-    = '\x00'	; u128= ;  ""a	b"" }
-")).
-Eval vm_compute in ("<<<M700>>>" ++ check (runes_of_ascii "// @lengthOf(
-packet i8i8 { u128 o , }
-options { MetaDataX = true true;
-    BodyLength =""packet"" x_y_z= 007
-crc //x
-= ""abc"" ;
-    msg_type =
-i16 }")).
-Eval vm_compute in ("<<<M695>>>" ++ check (runes_of_ascii "// @lengthOf(
-packet i8i8 { u128 o , }
-options { MetaDataX = true;
-    BodyLe@xngth =""packet"" x_y_z= 007
-crc //x
-= ""abc"" ;
-    msg_type =
-i16 }")).
-Eval vm_compute in ("<<<M715>>>" ++ check (runes_of_ascii "// @lengthOf(
-packet i8i8 { u128 o , options
-} { MetaDataX = true;
-    BodyLength =""packet"" x_y_z= 007
-crc //x
-= ""abc"" ;
-    msg_type =
-i16 }")).
-Eval vm_compute in ("<<<M1907>>>" ++ check (runes_of_ascii "packet A {
-    match k as n {
-        [
-            ""a"", ""bb"", ""c c"", ""d"", ""e"",
-            ""f"", ""g""
-        ] : B,
-        2 : C,
-    },
-}")).
-Eval vm_compute in ("<<<M1506>>>" ++ check (runes_of_ascii "
-packet
-	A
-
-{
-
-    match k
-    as n {  [
-    1 , 22
-	, ""c c"" ,
-
-4
-    , 5 
-,
-	""f""
-,
-7
-
-    ,  8
-	,
-    ""i"" ] :
-	B 2 :
-	C
-
-} 
-,
-
-}")).
-Eval vm_compute in ("<<<M937>>>" ++ check (runes_of_ascii "packet A {
-    u16 len @lengthOf(body) `a
-    b
-  c`,
-    u32 crc @calculatedFrom(""CRC32"") `a
-    b
-  c`,
-    string body,
-}")).
-Eval vm_compute in ("<<<M1141>>>" ++ check (runes_of_ascii "// c
-MetaData leftPad { chars MetaDataX , } packet repeatCount { char[ 255 ] uint8x `" ++ [233]%N ++ runes_of_ascii "` , } MetaData pack { As Foo , }")).
-Eval vm_compute in ("<<<M1174>>>" ++ check (runes_of_ascii "MetaData leftPad { chars MetaDataX , } packet repeatCount { char[ 255 ] uint8x `" ++ [233]%N ++ runes_of_ascii "` ,
+	} MetaData 
 // c
-} MetaData pack { As Foo , }")).
-Eval vm_compute in ("<<<M1457>>>" ++ check (runes_of_ascii "packet A 
-{ 
-match
-k
-    as	n
-    {
 
-[
-
-1	,
-
-""bb""
-
-    ,
-	007
-
-,
-""d""
-
-    , 
-5 ]
-    :
-    B , 2 : C
-	}  ,	}
-
+  pack
+{  As 
+Foo, }
 ")).
-Eval vm_compute in ("<<<M880>>>" ++ check (runes_of_ascii "packet A {
-  match k as n {
-    [""a"", ""bb"", ""c c"", ""d"", ""e"", ""f"", ""g"", ""h"", ""i"", ""j""] : B,
-    2 : C
-  },
-}")).
-Eval vm_compute in ("<<<M867>>>" ++ check (runes_of_ascii "packet A {
-  match k as n {
-    [""a"", ""bb"", ""c c"", ""d"", ""e"", ""f"", ""g"", ""h"", ""i""] : B,
-    2 : C
-  },
-}")).
-Eval vm_compute in ("<<<M656>>>" ++ check (runes_of_ascii "// @lengthOf(
+Eval vm_compute in ("<<<M719>>>" ++ check (runes_of_ascii "// @lengthOf(
 packet i8i8 { u128 o , }
 options { MetaDataX = true;
-    BodyLength =""packet"" x_y_z")).
-Eval vm_compute in ("<<<M886>>>" ++ check (runes_of_ascii "packet A {
+     =""packet"" x_y_z= 007
+crc //x
+= ""abc"" ;
+    msg_type =
+i16 }")).
+Eval vm_compute in ("<<<M1854>>>" ++ check (runes_of_ascii "  packet
+A { 
+match
+k as
+n
+
+{
+    [
+	""a""  ,""bb""
+    ,
+	007 
+,	""d"" ,
+
+""e"" 
+,66,
+
+""g"",	""h""  ,
+
+9
+	, ""j""	]
+	:	B,	2
+
+: 
+C }
+
+,
+}")).
+Eval vm_compute in ("<<<M1398>>>" ++ check (runes_of_ascii "packet msg_type {
+    zchar[65535] stringy @calculatedFrom(""" ++ [233]%N ++ runes_of_ascii "t" ++ [233]%N ++ runes_of_ascii """),
+    @tag(0)
+    repeat i64_,
+}
+// packet A { u8 x, }")).
+Eval vm_compute in ("<<<M1169>>>" ++ check (runes_of_ascii "MetaData leftPad { chars MetaDataX , } packet repeatCount { char[ 255 ] uint8x // c
+`" ++ [233]%N ++ runes_of_ascii "` , } MetaData pack { As Foo , }")).
+Eval vm_compute in ("<<<M1319>>>" ++ check (runes_of_ascii "
+packet FooBar  {  u8
+	a , }
+    packet  foo_bar
+
+    {  u16 
+b
+
+    , } root
+	packet R{FooBar , foo_bar
+,	}
+")).
+Eval vm_compute in ("<<<M1816>>>" ++ check (runes_of_ascii "// a // b
+	  packet Pad
+{
+    char[]	// packet A { u8 x, }
+	Z9_
+    @lengthOf(
+Pad	)
+
+    `{ , }`
+,}
+")).
+Eval vm_compute in ("<<<M1415>>>" ++ check (runes_of_ascii "
+
+  packet 
+A { u16 // a
+      len// b
+    @lengthOf( 	 // c
+  body// d
+) 	 // e
+    	`d`  // f
+,	}
+
+")).
+Eval vm_compute in ("<<<M899>>>" ++ check (runes_of_ascii "packet A {
   match k as n {
-    [1, 22, ""c c"", 4, 5, ""f"", 7, 8, ""i"", 10] : B,
+    [1, 22, ""c c"", 4, 5, ""f"", 7, 8, ""i"", 10, 11] : B,
     2 : C
   },
 }")).
-Eval vm_compute in ("<<<M618>>>" ++ check (runes_of_ascii "
+Eval vm_compute in ("<<<M610>>>" ++ check (runes_of_ascii "
+packet
+    asx {match u128 as lengthOf
+{
+//	t
+// `tick` ""quote"" 'q'
+255 : x repeat
+    } ,	}")).
+Eval vm_compute in ("<<<M585>>>" ++ check (runes_of_ascii "
+packet
+    asx {match u128 as @lengthOf(
+{
+//	t
+// `tick` ""quote"" 'q'
+255 : x ,
+    } ,	}")).
+Eval vm_compute in ("<<<M69>>>" ++ check (runes_of_ascii "//
+packet metadata
+{ }	MetaData chars
+//x
+//	t
+{
+    char[ 42	] leftPad `crlf
+line`  ,
+}")).
+Eval vm_compute in ("<<<M622>>>" ++ check (runes_of_ascii "
 packet
     asx {match u128 as lengthOf
 {
 //	t
 // `tick` ""quote"" 'q'
 255 : x ,
-    } , ,	}")).
-Eval vm_compute in ("<<<M589>>>" ++ check (runes_of_ascii "
-packet
-    asx {match u128 as lengthOf
-255
-//	t
-// `tick` ""quote"" 'q'
-{ : x ,
-    } ,	}")).
-Eval vm_compute in ("<<<M936>>>" ++ check (runes_of_ascii "packet A {
-    B b `a
-    b
-  c`,
-    B `a
-    b
-  c`,
-    repeat B bs `a
-    b
-  c`,
-}")).
-Eval vm_compute in ("<<<M1597>>>" ++ check (runes_of_ascii "packet A {
-    B b `x
-        `,
-    B `x
-        `,
-    repeat B bs `x
-        `,
-}")).
-Eval vm_compute in ("<<<M1273>>>" ++ check (runes_of_ascii "options {
-    FixedStringPadFromLeft = true;
+    } ,	")).
+Eval vm_compute in ("<<<M1469>>>" ++ check (runes_of_ascii "options {
+    LittleEndian = true;
 }
+
 root packet P {
-    char[4] z,
-}
-")).
-Eval vm_compute in ("<<<M166>>>" ++ check (runes_of_ascii "packet calculatedFrom {repeat // packet A { u8 x, }
-string Foo`{ , }`	, }
-")).
-Eval vm_compute in ("<<<M1653>>>" ++ check (runes_of_ascii "  root packet	P{  u16 
-a
-,  u32
-    Sum @calculatedFrom(
-	""CRC32"") 
-,} ")).
-Eval vm_compute in ("<<<M792>>>" ++ check (runes_of_ascii "packet A {
+    repeat char cs,
+    u8 x,
+}")).
+Eval vm_compute in ("<<<M833>>>" ++ check (runes_of_ascii "packet A {
   match k as n {
-    [1, ""bb"", 007] : B
+    [""a"", 22, ""c c"", 4, ""e"", 66] : B
     2 : C
   },
 }")).
-Eval vm_compute in ("<<<M783>>>" ++ check (runes_of_ascii "packet A {
+Eval vm_compute in ("<<<M1650>>>" ++ check (runes_of_ascii "packet A {
+    // a
+    @tag(1)
+    u8 x,// b
+    // c
+    @tag(2)
+    u8 y,
+}")).
+Eval vm_compute in ("<<<M804>>>" ++ check (runes_of_ascii "packet A {
   match k as n {
-    [1, ""bb""] : B
+    [1, ""bb"", 007, ""d""] : B,
     2 : C
   },
 }")).
-Eval vm_compute in ("<<<M1089>>>" ++ check (runes_of_ascii "packet A { // a
- @tag(1) u8 x, // b
- // c
- @tag(2) u8 y, }")).
-Eval vm_compute in ("<<<M1093>>>" ++ check (runes_of_ascii "packet A { repeat // a
- B // b
- b // c
- `d` // e
- , }")).
-Eval vm_compute in ("<<<M1888>>>" ++ check (runes_of_ascii "MetaData M {
-    u8 x `x
-    `,
-    T t `x
-    `,
-}")).
-Eval vm_compute in ("<<<M756>>>" ++ check (runes_of_ascii "zchar ( : f64 ) , repeat f32 u16 float64 , ; :")).
-Eval vm_compute in ("<<<M1411>>>" ++ check (runes_of_ascii "
-root
-	packet
+Eval vm_compute in ("<<<M1540>>>" ++ check (runes_of_ascii "
+packet
+	body
+{ 	 // c
+    i32 
+f32a `{ , }`
 
-A
-	{
-    u8
-	x
-`x
-`
-,	}
+    , } 
+options	{ }")).
+Eval vm_compute in ("<<<M1889>>>" ++ check (runes_of_ascii "
+packet A
+	{B
+	b
+    `x
+`	,
+
+B	`x
+`  , 
+repeat B	bs `x
+`	, 
+}
+
 ")).
-Eval vm_compute in ("<<<M935>>>" ++ check (runes_of_ascii "packet A {
+Eval vm_compute in ("<<<M1102>>>" ++ check (runes_of_ascii "// top
+MetaData
+    // c0
+tag
+    // c1
+{ // c2
+}
+    // c3
+")).
+Eval vm_compute in ("<<<M1679>>>" ++ check (runes_of_ascii "MetaData M {
     u8 x `a
-    b
-  c`,
+    b`,
+    T t `a
+    b`,
 }")).
-Eval vm_compute in ("<<<M1063>>>" ++ check (runes_of_ascii "packet A {
- u8 x `d x`, // c x
-}")).
-Eval vm_compute in ("<<<M1023>>>" ++ check (runes_of_ascii "packet A {
- u8 x `d" ++ [8239]%N ++ runes_of_ascii "`, // c" ++ [8239]%N ++ runes_of_ascii "
-}")).
-Eval vm_compute in ("<<<M953>>>" ++ check (runes_of_ascii "packet A {
-    u8 x `
-x`,
-}")).
-Eval vm_compute in ("<<<M1112>>>" ++ check (runes_of_ascii "MetaData tag { }
-// c
+Eval vm_compute in ("<<<M1209>>>" ++ check (runes_of_ascii "packet body { i32 f32a `{ , }` // c
+, } options { }")).
+Eval vm_compute in ("<<<M693>>>" ++ check (runes_of_ascii "// @lengthOf(
+packet i8i8 { u128 o , }
+options")).
+Eval vm_compute in ("<<<M31>>>" ++ check (runes_of_ascii "options {
+x=
+""{,}""
+matchKey=  true	; }
 ")).
-Eval vm_compute in ("<<<M1137>>>" ++ check (runes_of_ascii "MetaData u { }
-// c
-")).
-Eval vm_compute in ("<<<M991>>>" ++ check (runes_of_ascii "packet A {
-}
-// c" ++ [133]%N)).
-Eval vm_compute in ("<<<M1233>>>" ++ check (runes_of_ascii "packet x { }
-// c
-")).
-Eval vm_compute in ("<<<M1435>>>" ++ check (runes_of_ascii "MetaData i64_ {
+Eval vm_compute in ("<<<M964>>>" ++ check (runes_of_ascii "root packet A {
+    u8 x `tab
+	x`,
 }")).
-Eval vm_compute in ("<<<M3>>>" ++ check (runes_of_ascii "options {}
-
-")).
-Eval vm_compute in ("<<<M1015>>>" ++ check (runes_of_ascii "// c" ++ [8233]%N)).
-Eval vm_compute in ("<<<M72>>>" ++ check (@nil rune)).
+Eval vm_compute in ("<<<M1697>>>" ++ check (runes_of_ascii "packet A {
+    u8 x `a
+    b`,
+}")).
+Eval vm_compute in ("<<<M978>>>" ++ check (runes_of_ascii "packet A {
+ u8 x `d `, // c 
+}")).
+Eval vm_compute in ("<<<M917>>>" ++ check (runes_of_ascii "packet A {
+    u8 x `a
+b`,
+}")).
+Eval vm_compute in ("<<<M1834>>>" ++ check (runes_of_ascii "packet A {
+}// a// b// c")).
+Eval vm_compute in ("<<<M1107>>>" ++ check (runes_of_ascii "MetaData tag // c
+{ }")).
+Eval vm_compute in ("<<<M103>>>" ++ check (runes_of_ascii "packet packetx	{ }")).
+Eval vm_compute in ("<<<M1047>>>" ++ check (runes_of_ascii "// c" ++ [8203]%N ++ runes_of_ascii "
+packet A {
+}")).
+Eval vm_compute in ("<<<M1054>>>" ++ check (runes_of_ascii "packet A {
+}// c" ++ [6158]%N)).
+Eval vm_compute in ("<<<M404>>>" ++ check (runes_of_ascii "packet uint8x")).
+Eval vm_compute in ("<<<M995>>>" ++ check (runes_of_ascii "// c" ++ [5760]%N)).
+Eval vm_compute in ("<<<M727>>>" ++ check (runes_of_ascii "")).
